@@ -6,7 +6,7 @@ that never purges, whenever every operation reaches every replica within less th
 period): decided on Cluster.tla with global time, bounded clock skew, Purge enabled at any moment and the
 timeliness guard, exhaustively for a small config and by simulation + real-node replay beyond."""
 import vlib
-from checks import cluster_model, orswot_ops
+from checks import actor_traces, cluster_model, orswot_ops
 
 ASSUMPTIONS = [
     "local clauses: every reachable set of the bounded universes in coverage.configs; purge enabled in every state",
@@ -17,6 +17,8 @@ ASSUMPTIONS = [
     "directly, by batch or by a repair half - never inferred) stays younger than F; node clocks run at most MaxSkew ahead; this under-approximates "
     "'timely' and therefore cannot raise a false alarm",
     "global clause expectation = last-writer-wins over all issued operations, i.e. the outcome of the never-purging cluster",
+    "(V) every purge handled by a keyspace actor of the real nodes during the cluster replays (and, thorough tier, during the repository's own "
+    "test suites run with the hooks on) is validated against Trace_KeyspaceActor.tla: a purge changes nothing that is live",
 ]
 
 
@@ -38,6 +40,8 @@ def run(ctx):
     cov["global"] = {k: gcov[k] for k in ("exhaustive_configs", "simulated_configs", "drift_behaviours")}
     cov["global"]["purge_steps_replayed"] = purges
     cov["global"]["time_steps_replayed"] = ticks
+    if ctx.tier == "thorough":
+        cov["own_tests_actor_traces"] = actor_traces.run_repo_tests(ctx, ["C08"])
     return vlib.finish(ctx, "model_checking", cov, ASSUMPTIONS)
 
 
